@@ -41,6 +41,7 @@ def jobs(pid, tier, seed):
         out += [{"kind": "bulk_list", "n": n, "allow_list": a} for n in (1010, 1200) for a in (1, 0)]
     if pid in ("C01", "C02"):
         out += [{"kind": "lazy", "n": n} for n in (0, 1, 2, 99, 100, 101, 250, 520)]
+        out += [{"kind": "lazy", "pipeline": k} for k in ("adds-drop", "adds-closing", "open-close")]
         out += [{"kind": "lazy", "seed": seed * 1000003 + 700000 + i} for i in range(200 if tier == "quick" else 4000)]
     if pid in ("C02", "C17"):
         # the real process over real TCP: an add processed while a subscriber's closing handshake is under way
@@ -48,6 +49,8 @@ def jobs(pid, tier, seed):
         reps = 1 if tier == "quick" else 12
         out += [{"kind": "wire_closing", "order": list(o), "usage": (i + k) % 2, "adds": 1 + (i + k) % 3}
                 for k in range(reps) for i, o in enumerate(orders)]
+        out += [{"kind": "wire_transport", "variant": v, "usage": i % 2}
+                for i, v in enumerate(("bigframe", "pipelined", "dribble", "http-first", "idle-unbound"))]
     n = N_RANDOM[tier]
     for i in range(n):
         job = {"kind": "random", "seed": seed * 1000003 + i}
@@ -178,10 +181,21 @@ def run_wire_closing(pid, job, acc):
     from .. import wire
     wd = tempfile.mkdtemp(prefix="verif-wirec-", dir=new_workdir_root())
     try:
-        problems, observed = wire.closing_handshake_case(wd, Config(usage=bool(job["usage"])), tuple(job["order"]), job["adds"])
+        if job["kind"] == "wire_transport":
+            problems, observed = wire.transport_case(wd, Config(usage=bool(job["usage"])), job["variant"])
+        else:
+            problems, observed = wire.closing_handshake_case(wd, Config(usage=bool(job["usage"])), tuple(job["order"]), job["adds"])
     finally:
         shutil.rmtree(wd, ignore_errors=True)
     acc.cases += 1
+    if job["kind"] == "wire_transport":
+        acc.ev["wire_transport_case"] += 1
+        acc.distinct.add("wire_transport:%s" % sorted(job.items()))
+        if problems:
+            acc.add_violation({"property": pid, "kind": "wire_closing", "case": "wire_transport:%s" % sorted(job.items()), "job": job,
+                               "violation": {"props": ["C02", "C17"], "kind": "real transport: %s" % job["variant"],
+                                             "detail": {"problems": problems, "observed": observed}, "step": None}})
+        return
     acc.ev["wire_closing_case"] += 1
     acc.distinct.add("wire_closing:%s" % sorted(job.items()))
     if problems:
@@ -207,8 +221,12 @@ class DupMonitor(object):
         pass
 
     def on_frame(self, world, st, conn, frame):
+        if frame.get("type") == "closed":
+            self.closed_conns = getattr(self, "closed_conns", set()) | {conn}
         if frame.get("type") != "message":
             return
+        if conn in getattr(self, "closed_conns", ()):
+            self.dups.append({"conn": conn, "message_after_closed": frame.get("body"), "step": st.i if st is not None else None})
         k = (frame.get("side"), frame.get("phase"), frame.get("body"), frame.get("id"), frame.get("server_rx"))
         c = self.seen.setdefault(conn, self.C())
         c[k] += 1
@@ -219,7 +237,39 @@ class DupMonitor(object):
 def run_lazy(pid, job, acc):
     """Histories executed with deferred work (reactor.callLater) run one command late."""
     from ..scenarios import HB
-    if job.get("n") is not None:
+    expect_replay = None
+    if job.get("pipeline") is not None:
+        # one client sends several commands back to back (one TCP segment) and goes away at once; whatever the server
+        # postpones to later reactor turns, every acknowledged add is stored and replayed, and a connection that was
+        # told `closed` gets nothing more
+        b = HB()
+        b.tag = "pl"
+        y = b.conn("app", "s2")
+        b.send(y, type="open", mailbox="pl")
+        x = b.conn()
+        b.send(x, type="bind", appid="app", side="s1")
+        b.send(x, type="open", mailbox="pl")
+        bodies = []
+        if job["pipeline"] in ("adds-drop", "adds-closing"):
+            for i in range(3):
+                bodies.append(b.add(x, "p%d" % i, id="i%d" % i))
+            if job["pipeline"] == "adds-closing":
+                b.h.append(["closing", x])
+            b.drop(x)
+            b.send(y, type="ping", ping=1)
+        else:
+            b.send(x, type="close", mood="happy")
+            bodies.append(b.add(y, "after-close"))
+            b.send(y, type="ping", ping=1)
+            bodies.append(b.add(y, "after-close2"))
+            b.drop(x)
+        z = b.conn("app", "s1")
+        b.send(z, type="open", mailbox="pl")
+        b.send(z, type="ping", ping=2)
+        expect_replay = (z, bodies)
+        hist, seed, case = b.h, 0, "lazy:pipeline=%s" % job["pipeline"]
+        cfg = Config(usage=False)
+    elif job.get("n") is not None:
         b = HB()
         b.tag = "lz"
         a = b.conn("app", "s1")
@@ -241,7 +291,8 @@ def run_lazy(pid, job, acc):
         cfg = Config(usage=bool(job["n"] % 2))
     else:
         seed = job["seed"]
-        hist = generate(seed, **dict(PROFILES[pid]["gen"], closings=False))
+        prof = PROFILES["C08" if pid == "C13" else pid]["gen"]
+        hist = generate(seed, **dict(prof, closings=False, restarts=(pid != "C13")))
         cfg = cfg_for(seed)
         case = "lazy:%d" % seed
     mon = DupMonitor()
@@ -259,9 +310,29 @@ def run_lazy(pid, job, acc):
         acc.frames += ex.world.counters["frames"]
         acc.distinct.add(hhash(hist))
         excs = [s.brief() for s in ex.world.steps if s.exc and s.kind == "turn"]
+        if pid == "C13":
+            # timing-independent: everybody leaves, expiry + 2 periods pass, the store holds nothing
+            from ..model import EXPIRY, PERIOD
+            w = ex.world
+            for n in w.alive_conns():
+                w.drop(n)
+            w._pump()
+            w.advance(EXPIRY + 2 * PERIOD + 1)
+            left = {t: len(r) for t, r in w.dump().items() if r}
+            acc.ev["c13_empty_at_quiescence"] += 1
+            acc.ev["c13_lazy_quiescence"] += 1
+            if left:
+                mon.dups.append({"store_not_empty_after_quiescence": left})
+        if expect_replay is not None:
+            zc, bodies = expect_replay
+            got = [k[2] for k in mon.seen.get(zc, {})]
+            missing = [x for x in bodies if x not in got]
+            acc.ev["lazy_pipeline_replay_checked"] += 1
+            if missing:
+                mon.dups.append({"acknowledged_adds_missing_from_a_later_replay": missing, "replayed": got})
         if mon.dups or excs:
             acc.add_violation({"property": pid, "kind": "lazy", "case": case, "job": job, "cfg": cfg.to_json(), "seed": seed, "history": hist,
-                               "violation": {"props": ["C02", "C01"], "kind": "a connection was sent the same message twice (deferred work run one command late)"
+                               "violation": {"props": ["C02", "C01", "C13"], "kind": "exactly-once broken when deferred work runs one command late (duplicate, message after `closed`, or acknowledged add lost)"
                                              if mon.dups else "deferred work failed", "detail": {"duplicates": mon.dups[:3], "failures": excs[:2]}, "step": None}})
     finally:
         ex.close()
@@ -338,7 +409,7 @@ def new_workdir_root():
 
 
 def run_job(pid, job, acc):
-    if job["kind"] == "wire_closing":
+    if job["kind"] in ("wire_closing", "wire_transport"):
         return run_wire_closing(pid, job, acc)
     if job["kind"] == "lazy":
         return run_lazy(pid, job, acc)
